@@ -32,6 +32,9 @@ pub struct Workload {
     pub max_chunks: usize,
     pub chunk_seed: u64,
     pub hash_key: u64,
+    /// None: unbuffered ports; Some(cap): block-buffered ports of this capacity
+    pub buffer_cap: Option<usize>,
+    pub flush_resets_first: bool,
 }
 
 fn file_to_json(f: &FileRec) -> Value {
@@ -92,6 +95,8 @@ impl Workload {
             "max_chunks": self.max_chunks,
             "chunk_seed": self.chunk_seed,
             "hash_key": self.hash_key,
+            "buffer_cap": self.buffer_cap,
+            "flush_resets_first": self.flush_resets_first,
         })
     }
 
@@ -109,6 +114,8 @@ impl Workload {
             max_chunks: v["max_chunks"].as_u64().ok_or("workload: missing max_chunks")? as usize,
             chunk_seed: v["chunk_seed"].as_u64().ok_or("workload: missing chunk_seed")?,
             hash_key: v["hash_key"].as_u64().ok_or("workload: missing hash_key")?,
+            buffer_cap: v["buffer_cap"].as_u64().map(|c| c as usize),
+            flush_resets_first: v["flush_resets_first"].as_bool().unwrap_or(false),
         })
     }
 }
@@ -252,6 +259,8 @@ pub fn workload(rng: &mut Rng, tier: Tier) -> Workload {
         max_chunks: *rng.pick(&[1, 1, 2, 3]),
         chunk_seed: rng.next_u64(),
         hash_key: rng.next_u64(),
+        buffer_cap: *rng.pick(&[None, None, None, Some(8), Some(40), Some(300), Some(4096)]),
+        flush_resets_first: rng.chance(1, 2),
     }
 }
 
@@ -316,6 +325,8 @@ fn knobs_for(w: &Workload, sequential: bool) -> Knobs {
             max_chunks: 1,
             chunk_seed: 0,
             honour_break: false,
+            buffer_cap: w.buffer_cap,
+            flush_resets_first: w.flush_resets_first,
         }
     } else {
         Knobs {
@@ -324,6 +335,8 @@ fn knobs_for(w: &Workload, sequential: bool) -> Knobs {
             max_chunks: w.max_chunks,
             chunk_seed: w.chunk_seed,
             honour_break: true,
+            buffer_cap: w.buffer_cap,
+            flush_resets_first: w.flush_resets_first,
         }
     }
 }
@@ -546,17 +559,20 @@ pub fn judge(w: &Workload, prep: &Prepared, ex: &Exec) -> (Verdict, Metrics) {
                 held.entry(*thread).or_default().remove(mutex);
                 (*thread, 2, *mutex as u64)
             }
-            Ev::Write { thread, port, .. } => {
-                let d = dest_of(&ex.dests, *port);
-                writers.entry(d.clone()).or_default().insert(*thread);
-                let h = held.get(thread).cloned().unwrap_or_default();
-                let c = common.entry(d).or_insert(None);
-                *c = Some(match c.take() {
-                    None => h,
-                    Some(prev) => prev.intersection(&h).copied().collect(),
-                });
-                (*thread, 3, *port as u64)
+            Ev::PortOp { thread, port } => {
+                if *thread != 0 {
+                    let d = dest_of(&ex.dests, *port);
+                    writers.entry(d.clone()).or_default().insert(*thread);
+                    let h = held.get(thread).cloned().unwrap_or_default();
+                    let c = common.entry(d).or_insert(None);
+                    *c = Some(match c.take() {
+                        None => h,
+                        Some(prev) => prev.intersection(&h).copied().collect(),
+                    });
+                }
+                continue;
             }
+            Ev::Write { thread, port, .. } => (*thread, 3, *port as u64),
             Ev::FileStart { thread, file } => {
                 started.insert(*file);
                 (*thread, 4, *file as u64)
@@ -1254,7 +1270,7 @@ fn selftest_workload(threads: usize, files: usize) -> Workload {
     for f in 0..files {
         partition[f % threads].push(f);
     }
-    Workload { expr: String::new(), files: fs, threads, partition, max_chunks: 1, chunk_seed: 1, hash_key: 1 }
+    Workload { expr: String::new(), files: fs, threads, partition, max_chunks: 1, chunk_seed: 1, hash_key: 1, buffer_cap: None, flush_resets_first: false }
 }
 
 fn wrap_program(defs: &str, policy: &str) -> String {
@@ -1372,6 +1388,36 @@ pub fn selftests() -> Vec<(&'static str, bool, String)> {
         2000,
         None,
     );
+    // block-buffered ports (Guile on pipes and files): display and force-output are
+    // unsynchronised read-modify-write operations on the port's buffer
+    let mut buffered: Vec<(&'static str, bool, String)> = vec![];
+    for cap in [8usize, 40, 4096] {
+        for resets_first in [false, true] {
+            let mut wb = selftest_workload(3, 6);
+            wb.buffer_cap = Some(cap);
+            wb.flush_resets_first = resets_first;
+            let mut case_b = |out_b: &mut Vec<(&'static str, bool, String)>, name: &'static str, program: String, keys: Option<Vec<u32>>, expect: Option<&[&str]>| {
+                let r = selftest_search(&wb, &program, keys, 4000);
+                let (ok, detail) = match (&r, expect) {
+                    (Ok(None), None) => (true, format!("cap {cap}, reset-first {resets_first}: no violation, as expected")),
+                    (Ok(Some(c)), Some(classes)) if classes.contains(&c.as_str()) => (true, format!("cap {cap}, reset-first {resets_first}: found {c}, as expected")),
+                    (other, _) => (false, format!("cap {cap}, reset-first {resets_first}: got {other:?}, expected {expect:?}")),
+                };
+                out_b.push((name, ok, detail));
+            };
+            case_b(&mut buffered, "buffered ports, framed writes under the lock: never torn", wrap_program(frame_ok, "(call-with-relative-path pr)"), Some(vec![3]), None);
+            let flush_locked = "(p (current-output-port)) (m (make-mutex)) (pr (lambda (l) (with-mutex m (display l p) (display #\\x0a p) (force-output p))))";
+            case_b(&mut buffered, "buffered ports, force-output inside the lock: never torn", wrap_program(flush_locked, "(call-with-relative-path pr)"), None, None);
+            let flush_unlocked = "(p (current-output-port)) (m (make-mutex)) (pr (lambda (l) (with-mutex m (display l p) (display #\\x0a p)) (force-output p)))";
+            case_b(
+                &mut buffered,
+                "buffered ports, force-output after the unlock: lost or duplicated output is found",
+                wrap_program(flush_unlocked, "(call-with-relative-path pr)"),
+                None,
+                Some(&["records-lost-or-altered", "mixed-line", "torn-line", "stray-output"]),
+            );
+        }
+    }
     let explicit = "(p (current-output-port)) (m (make-mutex)) (pr (lambda (l) (lock-mutex m) (display l p) (display #\\x0a p) (unlock-mutex m)))";
     case("explicit lock-mutex/unlock-mutex around both writes: never torn", &w3, wrap_program(explicit, "(call-with-relative-path pr)"), None, 3000, None);
     let explicit_bad = "(p (current-output-port)) (m (make-mutex)) (pr (lambda (l) (lock-mutex m) (display l p) (unlock-mutex m) (display #\\x0a p)))";
@@ -1383,5 +1429,6 @@ pub fn selftests() -> Vec<(&'static str, bool, String)> {
         3000,
         Some(&["mixed-line", "torn-line"]),
     );
+    out.extend(buffered);
     out
 }
